@@ -85,28 +85,54 @@ class SeqFn:
 
 
 class ArrList:
-    """A list the function builds: one array per field plus a length. Scalar lists use
-    the single field '_'. Immutable value (append returns a new one)."""
+    """A list the function builds: one array per field plus a length. Scalar lists use the single field '_'.
+    A field declared 'opt_int' is stored as a value array plus a none-flag array.  Immutable value
+    (append returns a new one)."""
 
     def __init__(self, name, fields, arrs=None, length=None, elem_cls='elem'):
         self.name, self.fields, self.elem_cls = name, dict(fields), elem_cls
-        self.arrs = arrs if arrs is not None else {
-            f: fresh(f'{name}.{f}', z3.ArraySort(INT, s)) for f, s in self.fields.items()}
+        if arrs is None:
+            arrs = {}
+            for f, s in self.fields.items():
+                if isinstance(s, str) and s == 'opt_int':
+                    arrs[f] = fresh(f'{name}.{f}', z3.ArraySort(INT, INT))
+                    arrs[f + '?none'] = fresh(f'{name}.{f}?none', z3.ArraySort(INT, BOOL))
+                else:
+                    arrs[f] = fresh(f'{name}.{f}', z3.ArraySort(INT, s))
+        self.arrs = arrs
         self.length = z3.IntVal(0) if length is None else length
 
     def appended(self, item):
         vals = item.f if isinstance(item, Obj) else (item if isinstance(item, dict) else {'_': item})
-        arrs = {}
+        arrs = dict(self.arrs)
         for f, s in self.fields.items():
             if f not in vals:
                 raise Unsupported(f'append to {self.name}: item lacks declared field {f!r}')
-            arrs[f] = z3.Store(self.arrs[f], self.length, coerce(vals[f], s))
+            v = vals[f]
+            if isinstance(s, str) and s == 'opt_int':
+                if v is None:
+                    none, val = z3.BoolVal(True), z3.IntVal(0)
+                elif isinstance(v, Opt):
+                    none, val = v.isnone, zint(v.val)
+                else:
+                    none, val = z3.BoolVal(False), zint(v)
+                arrs[f] = z3.Store(self.arrs[f], self.length, val)
+                arrs[f + '?none'] = z3.Store(self.arrs[f + '?none'], self.length, none)
+            else:
+                arrs[f] = z3.Store(self.arrs[f], self.length, coerce(v, s))
         return ArrList(self.name, self.fields, arrs, self.length + 1, self.elem_cls)
 
     def elem(self, idx):
         if list(self.fields) == ['_']:
             return z3.Select(self.arrs['_'], zint(idx))
-        return Obj(self.elem_cls, {f: z3.Select(a, zint(idx)) for f, a in self.arrs.items()})
+        o = Obj(self.elem_cls)
+        for f, s in self.fields.items():
+            if isinstance(s, str) and s == 'opt_int':
+                o.f[f] = Opt(z3.Select(self.arrs[f + '?none'], zint(idx)), z3.Select(self.arrs[f], zint(idx)))
+            else:
+                o.f[f] = z3.Select(self.arrs[f], zint(idx))
+        o.frozen = True
+        return o
 
     def havoc(self):
         n = fresh(f'len({self.name})')
